@@ -5,6 +5,7 @@ import (
 	"context"
 	"errors"
 	"fmt"
+	"sync"
 
 	"verif/sim/core"
 	"verif/sim/refts"
@@ -69,11 +70,55 @@ type MuxSim struct {
 	Faulty bool
 	// Broken: the output lost packet alignment; reported once, later packets are not judged.
 	Broken bool
+	// avoidPID is the PMT PID learned from a probe Muxer (-1 unknown)
+	avoidPID int
+}
+
+var (
+	probeOnce   sync.Once
+	probedPMT   = -1
+	probedFirst = -1
+)
+
+// probePMTPID learns, once per process, the PID this build of the library puts its PMT on (an
+// implementation constant the properties do not fix): a throw-away Muxer writes one table pair
+// and the reference decoder reads the PAT. Workloads never add an elementary stream on that PID
+// (a caller error outside every property's scope).
+func probePMTPID() int {
+	probeOnce.Do(func() {
+		defer func() { recover() }()
+		var buf bytes.Buffer
+		m := astits.NewMuxer(context.Background(), &buf)
+		if m.AddElementaryStream(astits.PMTElementaryStream{ElementaryPID: 0x1ffd, StreamType: astits.StreamTypeH264Video}) != nil {
+			return
+		}
+		m.SetPCRPID(0x1ffd)
+		if _, err := m.WriteTables(); err != nil || buf.Len() < 188 {
+			return
+		}
+		p, err := refts.DecodePacket(buf.Bytes()[:188])
+		if err != nil || p.PID != 0 {
+			return
+		}
+		secs, err := refts.Frame(p.Payload)
+		if err != nil || len(secs) != 1 || !secs[0].Complete {
+			return
+		}
+		ps, err := refts.ParseLong(p.Payload[secs[0].Start:secs[0].End])
+		if err != nil {
+			return
+		}
+		if t, err := refts.ParsePAT(ps); err == nil && len(t.Programs) == 1 {
+			probedPMT = int(t.Programs[0].PID)
+		}
+	})
+	return probedPMT
 }
 
 func NewMuxSim(period int, wplan world.WriterPlan, out *core.Outcome, check bool) *MuxSim {
 	s := &MuxSim{Out: out, Period: period, Check: check, pcr: -1, pmtPID: -1, pmtVer: -1, patVer: -1,
 		lastCC: map[int]int{}, PIDOf: map[int]int{}, dirty: true}
+	s.avoidPID = probePMTPID()
 	s.W = world.NewWriter(wplan, out.Log)
 	s.M = astits.NewMuxer(context.Background(), s.W, astits.MuxerOptTablesRetransmitPeriod(period))
 	s.sinceLo, s.sinceHi = period, period // tables are due before the first unit
@@ -183,7 +228,7 @@ func (s *MuxSim) Step(i int, op *MuxOp) *CallRec {
 	log := s.Out.Log
 	switch op.Op {
 	case "add":
-		if op.PID != 0 && s.pmtPID >= 0 && int(op.PID) == s.pmtPID {
+		if op.PID != 0 && ((s.pmtPID >= 0 && int(op.PID) == s.pmtPID) || int(op.PID) == s.avoidPID) {
 			// scope: an explicit PID equal to the (learned) PMT PID is a caller error
 			rec.Skipped = true
 			s.Out.Probe("skipped-pmt-pid")
